@@ -265,6 +265,9 @@ Section Fixed.
     - injection En as <- <-. cbn [snapshot_ok] in *. rewrite andb_true_r in H1. rewrite H1. cbn [andb].
       rewrite Hos. apply IH; assumption.
     - injection En as <- <-. cbn [snapshot_ok]. rewrite Hos. apply IH; assumption.
+    - injection En as <- <-. cbn [snapshot_ok]. rewrite Hos. apply IH; assumption.
+    - injection En as <- <-. cbn [snapshot_ok]. rewrite Hos. apply IH; assumption.
+    - injection En as <- <-. cbn [snapshot_ok]. rewrite Hos. apply IH; assumption.
   Qed.
 End Fixed.
 
@@ -285,6 +288,9 @@ Proof.
     - destruct (assert_prefix e (nst (wns w))). now injection En as <- <-.
     - destruct (compact u (nst (wns w))). now injection En as <- <-.
     - destruct (ns_identifier v locals (nst (wns w))). now injection En as <- <-.
+    - now injection En as <- <-.
+    - now injection En as <- <-.
+    - now injection En as <- <-.
     - now injection En as <- <-.
     - now injection En as <- <-.
     - now injection En as <- <-.
